@@ -150,3 +150,85 @@ func Test_Demo_NegativeTimeSpan(t *testing.T) {
 		t.Errorf("target %s, reference with signed time span %s", target.Text(16), want.Text(16))
 	}
 }
+
+// C17: marking a known header invalid must remove it and its descendants from the reported chain; marking an
+// unknown hash must only pre-empt it (and not crash).
+func Test_Demo_MarkInvalid(t *testing.T) {
+	repo, ctx := demoRepo(t)
+	main := MockHeaders(ctx, repo, repo.LastHash(), 952644136, 6)
+	bad := *main[3].BlockHash() // height 4
+	if err := repo.MarkHeaderInvalid(ctx, bad); err != nil {
+		t.Fatalf("mark: %s", err)
+	}
+	if repo.Height() != 3 {
+		t.Errorf("after marking height 4 invalid the reported tip height is %d, want 3", repo.Height())
+	}
+	if h := repo.HashHeight(bad); h != -1 && repo.longest.Find(bad) != -1 {
+		t.Errorf("marked header still found on the best branch at height %d", repo.longest.Find(bad))
+	}
+	if _, isLongest, err := repo.CheckHeader(ctx, *main[5].BlockHash()); err == nil && isLongest {
+		t.Errorf("descendant of the marked header still reported in the most-work chain")
+	}
+	if err := repo.ProcessHeader(ctx, main[3]); err == nil {
+		t.Errorf("marked header accepted again")
+	}
+	// unknown hash
+	func() {
+		defer func() {
+			if r := recover(); r != nil {
+				t.Errorf("MarkHeaderInvalid panicked on an unknown hash: %v", r)
+			}
+		}()
+		var unknown bitcoin.Hash32
+		unknown[5] = 7
+		if err := repo.MarkHeaderInvalid(ctx, unknown); err != nil {
+			t.Errorf("marking an unknown hash: %s", err)
+		}
+		h := demoHeader(repo.LastHash(), 952700000)
+		_ = h
+	}()
+}
+
+// C09/C18: after a reorg the ancestors of the tip that live in the old best branch are still in the most-work chain.
+func Test_Demo_IsLongestAfterReorg(t *testing.T) {
+	repo, ctx := demoRepo(t)
+	main := MockHeaders(ctx, repo, repo.LastHash(), 952644136, 4)
+	prev := *main[1].BlockHash() // fork off height 2
+	for i := 0; i < 4; i++ {     // fork tip 6 > main tip 4
+		h := demoHeader(prev, 952650000+uint32(i))
+		if err := repo.ProcessHeader(ctx, h); err != nil {
+			t.Fatalf("fork header %d: %s", i, err)
+		}
+		prev = *h.BlockHash()
+	}
+	if repo.LastHash() != prev {
+		t.Fatalf("fork did not become the best chain")
+	}
+	// height 1 is an ancestor of the new tip
+	height, isLongest, err := repo.CheckHeader(ctx, *main[0].BlockHash())
+	if err != nil || height != 1 || !isLongest {
+		t.Errorf("CheckHeader(ancestor of tip at height 1) = (%d, %v, %v), want (1, true, nil)", height, isLongest, err)
+	}
+	// height 3 of the old chain is no longer in the best chain
+	height, isLongest, err = repo.CheckHeader(ctx, *main[2].BlockHash())
+	if err != nil || height != 3 || isLongest {
+		t.Errorf("CheckHeader(old chain height 3) = (%d, %v, %v), want (3, false, nil)", height, isLongest, err)
+	}
+}
+
+// C17: marking the first header of the root branch must not crash the process.
+func Test_Demo_MarkRootInvalid(t *testing.T) {
+	repo, ctx := demoRepo(t)
+	MockHeaders(ctx, repo, repo.LastHash(), 952644136, 3)
+	root := repo.branches[0].AtHeight(0).Hash
+	defer func() {
+		if r := recover(); r != nil {
+			t.Errorf("MarkHeaderInvalid(first header of the root branch) panicked: %v", r)
+		}
+	}()
+	err := repo.MarkHeaderInvalid(ctx, root)
+	t.Logf("MarkHeaderInvalid(root) = %v", err)
+	if repo.Height() < 0 {
+		t.Errorf("no chain left")
+	}
+}
